@@ -311,8 +311,11 @@ def check_generator(pva, w_rel, acc_n, with_altitude, dt=0.02, signals=None, mas
     return fails, dict(rat_F=rat1, rat_FN=rat2, rat_B=ratB)
 
 
-def check_filter_step(pva, w_rel, acc_n, with_altitude, T, dt_imu=0.02):
-    """(B): finite differences over a filter step T vs error_model.propagate_errors on the true trajectory."""
+def check_filter_step(pva, w_rel, acc_n, with_altitude, T, dt_imu=0.02, out=None):
+    """(B): finite differences over one or several filter steps vs error_model.propagate_errors on the true
+    trajectory.  T: a filter step, or a list of (generally UNEQUAL) consecutive filter steps, each within 0.1..2 s and
+    a multiple of dt_imu; the model trajectory has one row per filter epoch, so propagate_errors must use each
+    interval's own length."""
     from pyins import error_model
     from pyins.error_model import InsErrorModel
     from scipy.linalg import expm
@@ -321,10 +324,21 @@ def check_filter_step(pva, w_rel, acc_n, with_altitude, T, dt_imu=0.02):
         pva.VD = 0.0
     w, f = body_signals(pva, w_rel, acc_n, with_altitude)
     ns = 9 if with_altitude else 7
-    n = max(1, int(round(T / dt_imu)))
-    dt = T / n
+    Ts = [float(x) for x in (T if isinstance(T, (list, tuple)) else [T])]
+    if len(Ts) == 1:
+        n = max(1, int(round(Ts[0] / dt_imu)))
+        dt = Ts[0] / n
+        cuts = [0, n]
+    else:
+        dt = dt_imu
+        cuts = [0]
+        for x in Ts:
+            cuts.append(cuts[-1] + max(1, int(round(x / dt))))
+        n = cuts[-1]
+        Ts = [(cuts[i + 1] - cuts[i]) * dt for i in range(len(Ts))]
+    T = sum(Ts)
     Phi, S, true, _ = transition(pva, w, f, dt, n, with_altitude)
-    traj = true.iloc[[0, -1]]
+    traj = true.iloc[cuts]
     em = InsErrorModel(with_altitude)
     Tout = em.transform_to_output(traj.iloc[0])
     PhiM = np.zeros((ns, ns))
@@ -339,29 +353,35 @@ def check_filter_step(pva, w_rel, acc_n, with_altitude, T, dt_imu=0.02):
         _, merr = error_model.propagate_errors(traj, None, gyro_error=e[:3], accel_error=e[3:],
                                                with_altitude=with_altitude)
         SM[:, j] = merr.values[-1]
-    F0, Bg0, Ba0 = em.system_matrices(traj.iloc[0])
-    F1, Bg1, Ba1 = em.system_matrices(traj.iloc[-1])
-    # quadrature error of the trapezoid over [0, T] when F, B are curved in time: second difference with the
-    # mid-point sample of the true trajectory (Simpson - trapezoid = T (F0 - 2 Fm + F1) / 3)
-    Fm, Bgm, Bam = em.system_matrices(true.iloc[len(true) // 2])
-    curvF = np.abs(F0 - 2 * Fm + F1) * T / 3
-    curvB = np.abs(np.hstack([Bg0, Ba0]) - 2 * np.hstack([Bgm, Bam]) + np.hstack([Bg1, Ba1])) * T / 3
-    N0 = neglected_matrix(traj.iloc[0])
-    N1 = neglected_matrix(traj.iloc[-1])
+
+    def mats(p):
+        F, Bg, Ba = em.system_matrices(p)
+        N = neglected_matrix(p)
+        if not with_altitude:
+            N = _t23() @ N @ _t32(p)
+        return F, np.hstack([Bg, Ba]), N
+    ends = [mats(traj.iloc[i]) for i in range(len(cuts))]
+    mids = [mats(true.iloc[(cuts[i] + cuts[i + 1]) // 2]) for i in range(len(Ts))]
+    # per interval: quadrature error of the trapezoid when F, B are curved in time (Simpson - trapezoid =
+    # Ti (F0 - 2 Fm + F1) / 3, second difference with the mid-point sample of the true trajectory) and their variation
+    curvF = sum(np.abs(ends[i][0] - 2 * mids[i][0] + ends[i + 1][0]) * Ts[i] / 3 for i in range(len(Ts)))
+    curvB = sum(np.abs(ends[i][1] - 2 * mids[i][1] + ends[i + 1][1]) * Ts[i] / 3 for i in range(len(Ts)))
+    varF = sum(np.abs(ends[i + 1][0] - ends[i][0]) for i in range(len(Ts)))
+    varFT = sum(np.abs(ends[i + 1][0] - ends[i][0]) * Ts[i] / 2 for i in range(len(Ts)))
+    dBm = sum(np.abs(ends[i + 1][1] - ends[i][1]) for i in range(len(Ts)))
+    dBmT = sum(np.abs(ends[i + 1][1] - ends[i][1]) * Ts[i] / 2 for i in range(len(Ts)))
     if not with_altitude:
-        N0 = _t23() @ N0 @ _t32(traj.iloc[0])
-        N1 = _t23() @ N1 @ _t32(traj.iloc[-1])
         hs = _t23() @ H_STATE
         eps = _t23() @ EPS_ROW
     else:
         hs, eps = H_STATE, EPS_ROW
-    A = np.maximum(np.abs(F0), np.abs(F1))
-    Nb = np.maximum(np.abs(N0), np.abs(N1))
+    A = np.max([np.abs(e[0]) for e in ends], axis=0)
+    Nb = np.max([np.abs(e[2]) for e in ends], axis=0)
+    Bm = np.max([np.abs(e[1]) for e in ends], axis=0)
     M = A + Nb
     E2 = expm(M * T) - np.eye(ns) - M * T
     floor = 100 * (n + 1) * eps[:, None] / hs[None, :]
-    tol = 4 * (E2 + Nb * T + 2 * curvF + np.abs(F1 - F0) * T / 2 +
-               (np.abs(F1 - F0) @ M + M @ np.abs(F1 - F0)) * T * T) \
+    tol = 4 * (E2 + Nb * T + 2 * curvF + varFT + (varF @ M + M @ varF) * T * T) \
         + floor + 1e-6 * np.abs(PhiM)
     if not with_altitude:
         # the harness feeds constant body-frame readings; over T the vertical specific force then departs from the
@@ -371,32 +391,33 @@ def check_filter_step(pva, w_rel, acc_n, with_altitude, T, dt_imu=0.02):
         def cv(p):
             v = np.array([p.VN, p.VE, 0.0])
             return float(np.cross(2 * earth.rate_n(p.lat) + earth.curvature_matrix(p.lat, p.alt) @ v, v)[2])
-        dev = abs(cv(traj.iloc[-1]) - cv(traj.iloc[0]))
+        dev = max(abs(cv(traj.iloc[i]) - cv(traj.iloc[0])) for i in range(len(cuts)))
         tol[2:4, 4:7] += 4 * dev * T
     fails = []
     d = np.abs(Phi - PhiM)
     rat = float((d / tol).max())
+    if out is not None:
+        out.update(d=d, tol=tol, E2=E2, NbT=Nb * T, curvF=curvF, varFT=varFT, cross=(varF @ M + M @ varF) * T * T, floor=floor)
     if rat > 1:
         i, k = np.unravel_index(np.argmax(d / tol), d.shape)
-        fails.append(("propagate_errors' transition over a filter step disagrees with the integrator's measured "
+        fails.append(("propagate_errors' transition over the filter step(s) disagrees with the integrator's measured "
                       "error growth beyond second-order and neglected terms",
                       dict(row=int(i), col=int(k), measured=float(Phi[i, k]), model=float(PhiM[i, k]),
-                           tol=float(tol[i, k]), T=T)))
-    Bm = np.maximum(np.abs(np.hstack([Bg0, Ba0])), np.abs(np.hstack([Bg1, Ba1])))
-    dBm = np.abs(np.hstack([Bg1, Ba1]) - np.hstack([Bg0, Ba0]))
+                           tol=float(tol[i, k]), T=Ts)))
     E1 = expm(M * T) - np.eye(ns)
     wn = float(np.linalg.norm(w)) + 1e-3
     an = float(np.linalg.norm(acc_n)) + 1.0
-    tolS = 4 * (E1 @ Bm * T / 2 + Nb @ Bm * T * T + 2 * curvB + dBm * T / 2 + M @ dBm * T * T +
-                T * (wn * T) ** 2 * (Bm @ MIX) / 8 + T * (wn * T) * (an * T) * (DVG if with_altitude else _t23() @ DVG) / 4) + \
+    Tm = max(Ts)
+    tolS = 4 * (E1 @ Bm * T / 2 + Nb @ Bm * T * T + 2 * curvB + dBmT + M @ dBm * T * T +
+                T * (wn * Tm) ** 2 * (Bm @ MIX) / 8 + T * (wn * Tm) * (an * Tm) * (DVG if with_altitude else _t23() @ DVG) / 4) + \
         100 * (n + 1) * eps[:, None] / H_SENS[None, :] + 1e-6 * np.abs(SM)
     dS = np.abs(S - SM)
     ratS = float((dS / tolS).max())
     if ratS > 1:
         i, k = np.unravel_index(np.argmax(dS / tolS), dS.shape)
-        fails.append(("propagate_errors' response to constant sensor errors over a filter step disagrees with the "
-                      "integrator's", dict(row=int(i), col=int(k), measured=float(S[i, k]), model=float(SM[i, k]),
-                                           tol=float(tolS[i, k]), T=T)))
+        fails.append(("propagate_errors' response to constant sensor errors over the filter step(s) disagrees with "
+                      "the integrator's", dict(row=int(i), col=int(k), measured=float(S[i, k]), model=float(SM[i, k]),
+                                               tol=float(tolS[i, k]), T=Ts)))
     return fails, dict(rat_Phi=rat, rat_S=ratS)
 
 
@@ -447,10 +468,17 @@ def numeric_statements(r, n_states, n_filter, seed_shift=0):
         with_alt = (i % 2 == 0)
         pva, w, acc = sample_state(rng, with_alt)
         T = rng.choice([0.1, 2.0, round(rng.uniform(0.1, 2.0), 2)])
+        if i % 2 == 1 or i % 4 == 2:
+            # non-uniform time stamps: two or three consecutive filter steps of different lengths (multiples of the
+            # IMU step, each within 0.1..2 s), e.g. 0.2 s then 1 s
+            k = rng.choice([2, 2, 3])
+            T = [round(rng.choice([0.1, 0.2, 0.5, 1.0, 2.0, rng.uniform(0.1, 1.5)]) / 0.02) * 0.02 for _ in range(k)]
+            if max(T) - min(T) < 0.1:
+                T[0], T[1] = 0.2, 1.0
         rep = dict(kind='filter_step', with_altitude=with_alt, T=T, pva=[float(v) for v in pva.values],
                    w=[float(v) for v in w], acc=[float(v) for v in acc])
-        r.case(('flt', with_alt, T) + tuple(round(float(v), 3) for v in pva.values), sample=rep)
-        dist['filter_steps'].append(T)
+        r.case(('flt', with_alt, str(T)) + tuple(round(float(v), 3) for v in pva.values), sample=rep)
+        dist['filter_steps'].append(T if not isinstance(T, list) else [round(x, 2) for x in T])
         fl, rat = check_filter_step(pva, w * 0.2, acc * 0.3, with_alt, T)
         for k in rat:
             worst[k] = max(worst[k], rat[k])
